@@ -58,6 +58,10 @@ def pointsets(tier, seed):
         ('core+halo-2d-window', clip(np.vstack([r.normal(0.5, 0.01, (14, 2)), r.normal(0.5, 0.2, (9, 2))])), 8),
         ('disc+dense+sparse-2d', clip(np.vstack([np.array([0.2, 0.2]) + 0.05 * (lambda rr, ph: np.column_stack([rr * np.cos(ph), rr * np.sin(ph)]))(np.sqrt(r.random(120)), 2 * np.pi * r.random(120)),
                                                   r.normal([0.8, 0.2], 0.002, (15, 2)), r.normal([0.5, 0.7], 0.2, (14, 2))])), 10),
+        # a main blob with fewer than n_points_min stragglers beside it: the smaller mixture component is topped up, and some
+        # main-blob points outrank its own members in its density ranking (fixed generators, independent of `seed`)
+    ] + [('blob+%dstragglers-2d-g%d' % (ns, g), (lambda q: clip(np.vstack([np.array([0.65, 0.5]) + 0.03 * q.normal(size=(60, 2)), np.array([0.45, 0.5]) + 0.07 * q.normal(size=(ns, 2))]))[q.permutation(60 + ns)])(np.random.default_rng(g)), 8)
+         for g, ns in ((1, 4), (4, 5), (27, 3), (10, 6))] + [
         ('uniform-ball-3d', clip(0.5 + 0.3 * (lambda x: x / np.linalg.norm(x, axis=1)[:, None] * r.uniform(0, 1, (len(x), 1)) ** (1 / 3))(r.normal(size=(120, 3)))), 6),
     ]
     if tier == 'thorough':
